@@ -6,7 +6,7 @@ import ast
 
 import z3
 
-from .values import (SArr, SBag, SFunc, SObj, SSeq, SSlice, SStr, Unsupported, coerce2, concrete,
+from .values import (SArr, SBag, SFunc, SObj, SOpt, SSeq, SSlice, SStr, Unsupported, coerce2, concrete,
                      is_bool, is_intlike, is_num, is_reallike, is_z3, num_term, snap, snap_finite,
                      to_bool, to_z3)
 
@@ -397,6 +397,27 @@ def np_logical(op):
             r.kind = 'bool'
             return r
         return f(a, b)
+    return g
+
+
+def np_arith(opcls):
+    """np.add / np.subtract / np.multiply(a, b[, out=o]): elementwise; with out= the result is
+    stored in place in `o` (same shape, as numpy requires) and `o` is returned."""
+    def g(ex, args, kw, st):
+        a, b = args[:2]
+        out = kw.get('out', args[2] if len(args) > 2 else None)
+        extra = set(kw) - {'out'}
+        if extra:
+            raise Unsupported(f'np arithmetic keyword {sorted(extra)}')
+        r = ex.binop(opcls(), a, b, st)
+        if out is None:
+            return r
+        if not isinstance(out, SArr) or not isinstance(r, SArr) or out.ndim != r.ndim:
+            raise Unsupported('out= of this value')
+        for d0, d1 in zip(out.shape, r.shape):
+            st.check('out= array has the shape of the result', num_term(d0) == num_term(d1))
+        ex.write_arr(out, None, r, st)
+        return out
     return g
 
 
@@ -1043,6 +1064,8 @@ TABLE = {
     'np.arcsin': p_uf1('asin', _asin_facts),
     'np.hypot': p_hypot, 'math.hypot': p_hypot,
     'np.isfinite': p_isfinite, 'np.isnan': p_isnan,
+    'np.subtract': np_arith(ast.Sub), 'np.add': np_arith(ast.Add),
+    'np.multiply': np_arith(ast.Mult),
     'np.logical_and': np_logical('and'), 'np.logical_or': np_logical('or'),
     'np.logical_not': np_logical('not'),
     'np.zeros': np_zeros(0), 'np.ones': np_zeros(1), 'np.zeros_like': np_zeros(0, True),
@@ -1120,8 +1143,23 @@ def _record(ex, args, kw, st):
 
 
 TABLE['record_'] = _record
-for _n in ('apsum', 'aperr', 'aparea'):
+for _n in ('apsum', 'aperr', 'aparea', 'modelimg'):
     TABLE[_n + '_'] = cl_uf(_n)
+
+
+def cl_code_psf(ex, args, kw, st):
+    """code_psf_(shape): an injective real code of an optional pair (None -> 0)."""
+    v = args[0]
+    if isinstance(v, SOpt):
+        return z3.If(v.none_if, z3.RealVal(0), cl_code_psf(ex, [v.value], kw, st))
+    if v is None:
+        return z3.RealVal(0)
+    if isinstance(v, tuple) and len(v) == 2:
+        return uf('pair_code', 2)(real(v[0]), real(v[1]))
+    raise Unsupported('code_psf_ of this value')
+
+
+TABLE['code_psf_'] = cl_code_psf
 TABLE['id_'] = cl_id
 TABLE['code_'] = cl_code
 
